@@ -245,6 +245,9 @@ func (ctrl *DefaultController) Import(ctx context.Context, stream chan ledger.Lo
 	}
 
 	for log := range stream {
+		if err := log.ValidateImported(); err != nil {
+			return NewErrImport(fmt.Errorf("invalid log: %w", err))
+		}
 		if lastLogID != nil && *log.ID <= *lastLogID {
 			return NewErrImport(fmt.Errorf("log %d already exists", *log.ID))
 		}
@@ -265,9 +268,11 @@ func (ctrl *DefaultController) Import(ctx context.Context, stream chan ledger.Lo
 					errors.Is(err, ledgerstore.ErrConcurrentTransaction{}):
 					return NewErrImport(errors.New("concurrent transaction occur" +
 						"red, cannot import the ledger"))
-				case errors.Is(err, ledgerstore.ErrTransactionReferenceConflict{}):
-					// the stream itself is at fault (two of its transactions carry the same reference): a refusal of
-					// the import, not an internal error
+				case errors.Is(err, ledgerstore.ErrTransactionReferenceConflict{}),
+					errors.Is(err, postgres.ErrNotFound):
+					// the stream itself is at fault (two of its transactions carry the same reference, or a log
+					// reverts / annotates a transaction or names a schema the stream never brought): a refusal
+					// of the import, not an internal error
 					return NewErrImport(fmt.Errorf("importing log %d: %w", *log.ID, err))
 				}
 				return fmt.Errorf("importing log %d: %w", *log.ID, err)
